@@ -85,6 +85,9 @@ func (g *gen) do(op string) string {
 		return "skipped" // an earlier operation of this case never returned; nothing more is executed or recorded
 	}
 	out := g.w.execW(op)
+	if out == "hung" {
+		g.w.wedged = true // the case ends here: whatever was stuck may still hold what later operations need
+	}
 	g.note(op, out)
 	g.raw = append(g.raw, op)
 	g.impls = append(g.impls, out)
@@ -839,7 +842,7 @@ func classify(op string, verdict string, feats map[string]bool, raw, impls []str
 		p := string(Unhx(f[2]))
 		sp := strings.TrimPrefix(p, "/streams")
 		switch {
-		case strings.HasSuffix(p, ".ts"):
+		case strings.HasSuffix(strings.ToLower(p), ".ts"):
 			base = "http-ts-path"
 		case strings.Contains(sp, "//") || strings.Contains(sp, "/./") || strings.Contains(sp, ".."):
 			base = "http-noncanonical-path"
@@ -886,7 +889,7 @@ func classify(op string, verdict string, feats map[string]bool, raw, impls []str
 	}
 	if strings.HasPrefix(f[len(f)-1], "H") {
 		// the request carried the client's own value for the internal identity header
-		base = "client-identity-header-" + f[0]
+		base += "-with-identity-header"
 	}
 	return base + "-" + v
 }
@@ -995,11 +998,10 @@ func settle(c *Ctx, k caseRec) (caseRec, bool) {
 			kind := strings.SplitN(src.raw[at], ":", 2)[0]
 			c.Find(Finding{Kind: "oracle", Class: "hang-" + kind, Case: src.line, Impl: "no answer within " + (3 * waitLimitBase).String() + ", twice", Spec: "an answer",
 				Detail: fmt.Sprintf("op #%d %s (%s)", at, src.raw[at], describe(src.raw[at]))})
-			break
+			// one replay of a stable hang is enough, and every further one would cost minutes: stop generating
+			// (goroutines are stuck inside the implementation, possibly holding its locks)
+			return src, false
 		}
-	}
-	if src.wedged && len(k2.raw) == 0 {
-		return k, false
 	}
 	// whatever else the second run shows is stable: it is judged like any other record
 	return k2, !k2.wedged
